@@ -34,7 +34,7 @@ NAME_DOMAINS = {
     "width": [1, 2], "height": [1, 2], "size": [("1cm", "2cm"), ("3in", "4in")], "position": [("1cm", "2cm"), ("0cm", "0cm"), 0, 1],
     "p1": [("1cm", "2cm")], "p2": [("3cm", "4cm")], "glue_points": [(1, 2)], "anchor_type": ["page", "frame", "paragraph", "char", "as-char"],
     "note_class": ["footnote", "endnote"], "cell_type": ["float", "string", "currency", "percentage", "boolean", "date", "time"],
-    "currency": ["EUR"], "formula": ["of:=1+1"], "date": [datetime(2024, 1, 31, 12, 0, 0)], "time": [datetime(2024, 1, 31, 12, 0, 0)],
+    "currency": ["EUR"], "formula": ["of:=1+1"], "date": [datetime(2024, 1, 31, 12, 0, 0), datetime(1999, 12, 31, 23, 59, 59)], "time": [datetime(2024, 1, 31, 12, 0, 0)],
     "display": ["name", "number", "true", "none"], "ref_format": ["page", "text", "chapter"], "xlink_type": ["simple"], "show": ["embed", "new"],
     "actuate": ["onLoad", "onRequest"], "print_ranges": [["A1:B2"], ["A1:B2", "C3:D4"]], "crange": ["A1", "B2:C3", (0, 0, 1, 1)],
     "font_name": ["Arial", "Deja Vu"], "font_pitch": ["variable", "fixed"], "value": [7, "txt", True, 1.5], "value_type": ["float", "string"],
@@ -196,6 +196,34 @@ def work(clsname):
                     rec(f"{clsname}.from_tag", variant, "class", clsname, type(back).__name__, "different-class-after-reparse", kw)
             except Exception as ex:
                 rec(f"{clsname}.from_tag(serialize)", variant, "raises", "no exception", f"{type(ex).__name__}: {ex}"[:150], f"raises:{type(ex).__name__}", kw)
+    # two instances of the class in one tree: each reports its own property values (also after re-parse)
+    for n in names:
+        if len(doms[n]) < 2 or not (hasattr(cls, n)):
+            continue
+        attr = inspect.getattr_static(cls, n, None)
+        if not isinstance(attr, property):
+            continue
+        v1, v2 = doms[n][0], doms[n][1]
+        nev += 1
+        try:
+            o1, o2 = cls(**{**base, n: v1}), cls(**{**base, n: v2})
+            g1, g2 = getattr(o1, n), getattr(o2, n)
+            if norm(g1) == norm(g2):
+                continue  # the property does not distinguish the two arguments (judged above)
+            parent = Element.from_tag("<office:text/>")
+            parent._Element__element.append(o1._Element__element)
+            parent._Element__element.append(o2._Element__element)
+            k1, k2 = parent.children
+            h1, h2 = getattr(k1, n), getattr(k2, n)
+            back = Element.from_tag(parent.serialize())
+            b1, b2 = back.children
+            r1, r2 = getattr(b1, n), getattr(b2, n)
+            if (norm(h1), norm(h2)) != (norm(g1), norm(g2)) or (norm(r1), norm(r2)) != (norm(g1), norm(g2)):
+                rec(f"{clsname}.{n}", "two-instances-in-one-tree", "own-property-values", (g1, g2), ((h1, h2), (r1, r2)), "property-read-from-another-element", {n: v1, "second": v2})
+        except (ValueError, TypeError, KeyError, AttributeError):
+            continue
+        except Exception as ex:
+            rec(f"{clsname}.{n}", "two-instances-in-one-tree", "raises", "no exception", f"{type(ex).__name__}: {ex}"[:150], f"raises:{type(ex).__name__}", {n: v1})
     seen_ctor_error = set()
     for kw in vectors:
         nev += 1
